@@ -8,9 +8,9 @@ import TlsModel.ErrPath
     getmsg v13= exp=<csv> sec=<csv> client= open= mbox= hbs= hbr= dccs=<hex> dalert=<hex> dhs=<hex> in=<inputs>
         inputs: `;`-separated, each  r:<type>:<hex>:<ssl2 0|1>  or  b:<kind>
         -> <outcome> iters=<n> reads=<n> extracts=<n> warnings=<n> rest=<n> buf=<ccs>.<alert>.<hs>
-    ch  pe= cv= se= ce= nc= sv= sa= alpn= sni= ems= ecpf= pha= pm= psk= sg= ks= ed= hb= rsl= ct= min= vers=
+    ch  pe= cv= se= ce= nc= sv= sa= alpn= sni= ems= ecpf= pha= pm= psk= sg= ks= ed= hb= rsl= ct= min= max= vers=
         -> alert:<d>:<message> | pass | escape:<...>
-    sh  pe= v= sv= hrr= sid= co= cto= cn= tack= npn= ems= alpn= afo= hb= rsl= ks= psk=
+    sh  pe= v= sv= al= hrr= sid= co= cto= cn= tack= npn= ems= alpn= afo= hb= rsl= ks= psk=
         cmin= cmax= cvers= rems= stack= snpn= salpn= uhb= hbcb= shares= pskn=
         -> same
     decomp declared= clen= known= avail= complete= corrupt= [old=1]  -> accepted=0|1 produced=<n> alert=<d|->
@@ -102,14 +102,14 @@ def chOf (m : List (String × String)) : Option (SrvSettings × CH) := do
       recordSizeLimit := ← extOf (← e "rsl") optNat,
       certType := ← extOf (← e "ct") optList }
   let vers ← csvNats (← e "vers")
-  pure (⟨← natOf m "min", vers⟩, h)
+  pure (⟨← natOf m "min", ← natOf m "max", vers⟩, h)
 
 def shOf (m : List (String × String)) : Option (CliState × SH) := do
   let e := fun k => look m k
   let h : SH :=
     { parseError := ← boolOf m "pe", serverVersion := ← natOf m "v",
       supportedVersions := ← extOf (← e "sv") String.toNat?,
-      hrrCipherMismatch := ← boolOf m "hrr", sessionIdEchoed := ← boolOf m "sid",
+      aligned := ← boolOf m "al", hrrCipherMismatch := ← boolOf m "hrr", sessionIdEchoed := ← boolOf m "sid",
       cipherOffered := ← boolOf m "co", certTypeOffered := ← boolOf m "cto", compressionNull := ← boolOf m "cn",
       tack := ← boolOf m "tack", npn := ← boolOf m "npn",
       ems := ← extOf (← e "ems") (fun _ => some ()),
